@@ -4,6 +4,8 @@ From Coq Require Import List NArith Bool.
 From MV Require Import Base.PyStr Inv.WildModel Inv.WildProofs Inv.SphinxModel Inv.SphinxProofs.
 From MV Require Import Inv.LinkModel.
 From MV Require Import Inv.LinkProofs.
+From MV Require Import Gen.WildSrc.
+From MV Require Import Inv.WildSrcProofs.
 Import ListNotations.
 
 (* '*' any run of characters, '\*' a literal star, every other character only itself:
@@ -12,6 +14,14 @@ Theorem C19_wildcard_correct : forall (n p : str),
   match_with_wildcard n (Some p) = true <-> Matches p n.
 Proof. exact wildcard_correct. Qed.
 Print Assumptions C19_wildcard_correct.
+
+(* the same statement for [match_with_wildcard_src], the definition that gen/c19_wild.py regenerates from
+   inventory.py's _create_regex / match_with_wildcard on every run (Gen/WildSrc.v): an edit of the source
+   changes that definition, and this theorem is re-checked against it. *)
+Theorem C19_wildcard_correct_src : forall (n p : str),
+  match_with_wildcard_src n (Some p) = true <-> Matches p n.
+Proof. exact wildcard_correct_src. Qed.
+Print Assumptions C19_wildcard_correct_src.
 
 (* an omitted pattern matches everything *)
 Theorem C19_none_matches_all : forall n, match_with_wildcard n None = true.
